@@ -162,6 +162,15 @@ def run(prop, tier, seed, replay=None):
         if rep.get('kind') == 'history':
             from checks import bytepipe
             return bytepipe.run(prop, tier, seed, replay=replay)
+        if 'events' in rep:
+            from checks import callback
+            return callback.run(prop, tier, seed, replay=replay)
+        if rep.get('kind') == 'blocking-read':
+            from checks import blocking
+            ck.cov['evaluations'] = 1
+            ck.cov['distinct_nontrivial'] = 1
+            blocking.c07_replay(ck, rep)
+            return ck.finish()
         if rep['steps'] == [] or str(rep.get('detail', '')).startswith('flush-retry'):
             job = {'nstreams': 1, 'qcap': rep.get('qcap', 2), 'known': [], 'schedules': [], 'staged': True,
                    'random': {'n': 0, 'seed': 1, 'steps': 0, 'streams': 1}}
@@ -277,6 +286,16 @@ def run(prop, tier, seed, replay=None):
         # buffer-level histories (multi-slice and mixed shm/heap messages, partial reads, pins, reuse): module BytePipe
         from checks import bytepipe
         bytepipe.run('C09', tier, seed, ck=ck, finish=False)
+    if prop == 'C09' and not ck.violations:
+        # callback mode at access granularity: Close racing the event loop's delivery, ledger and free-list integrity
+        # checked after both ends closed (module Callback)
+        from checks import callback
+        callback.run('C09', tier, seed, ck=ck, finish=False)
+    if prop == 'C07' and not ck.violations:
+        # a blocked reader racing the delivery of the peer's last data and its close (select with both arms ready): module
+        # Blocking, read waiter; "told the stream ended with the flushed bytes delivered and unread" is a C07 verdict
+        from checks import blocking
+        blocking.c07_read_overtake(ck, tier)
     if prop == 'C10' and not ck.violations:
         # callback mode: Close from another goroutine / from inside OnData, callbacks exactly once (module Callback)
         from checks import callback
